@@ -16,6 +16,8 @@ func init() { register("C20", propC20) }
 type concSpec struct {
 	A, B epCfg
 	prog string
+	// selects: the instant a select statement of the library fires is a scheduling point
+	selects bool
 	// yield: the release of a lock is a scheduling point too (preemption between a critical
 	// section and the unlocked code that follows it)
 	yield bool
@@ -36,6 +38,7 @@ func concScenario(spec *concSpec) *Scenario {
 				return
 			}
 			m.S.YieldAfterUnlock = spec.yield
+			m.S.YieldAfterSelect = spec.yield || spec.selects
 			mu := &m.mu
 			a, b := m.As[0], m.As[1]
 			open := func(as *Association, sid uint16) *Stream {
@@ -429,6 +432,25 @@ func propC20(j *Job) {
 			b := withBase(mode.B, 228, 0xFFFFFFF0, 4000)
 			b.RecvBuf = 1500
 			j.Explore(fmt.Sprintf("CB/%s/%s", mode.Name, strings.ReplaceAll(prog, " ", "+")), concScenario(&concSpec{A: a, B: b, prog: prog, yield: true}), Budget{D: 1}, nil)
+			if j.capped() {
+				break
+			}
+		}
+	}
+	// the same teardown programs with the library's select wake-ups as scheduling points (a
+	// goroutine woken by a channel can be overtaken before it looks at the state it was woken for)
+	for mi, mode := range modes {
+		if mi > 0 && !j.Thorough() {
+			break
+		}
+		for _, prog := range []string{"W1 R1 Xh", "W1 R1 Xa", "W1 R1 Xc", "Xh Xhb W1 Wb R1 Ra", "W1b Xh", "W1b Xa"} {
+			a := withBase(mode.A, 228, 0xFFFFFFFE, 4000)
+			b := withBase(mode.B, 228, 0xFFFFFFF0, 4000)
+			if strings.Contains(prog, "W1b") {
+				a.BlockWrite = true
+				b.RecvBuf = 1500
+			}
+			j.Explore(fmt.Sprintf("CS/%s/%s", mode.Name, strings.ReplaceAll(prog, " ", "+")), concScenario(&concSpec{A: a, B: b, prog: prog, selects: true}), Budget{D: 1}, nil)
 			if j.capped() {
 				break
 			}
